@@ -4,6 +4,8 @@ CONSTANTS NC = 4
   MaxPS = 3
   NoiseKinds <- MCNoiseAll
   ErrKinds <- MCErrAll
+  Segs <- MCSegAll
+  MaxAcc = 24
   D = 0
 INIT TrInit
 NEXT TrNext
